@@ -204,6 +204,9 @@ class Ctx:
                 args += ["-depth", str(depth)]
             args += ["-seed", str(self.seed)]
         args += extra or []
+        cov_audit = bool(os.environ.get("VERIF_COVERAGE")) and module.startswith("MC_") and not simulate
+        if cov_audit:       # vacuity audit (lib/coverage_audit.sh): which actions does the bounded model never take?
+            args += ["-coverage", "1"]
         args.append(module + ".tla")
         t = time.time()
         try:
@@ -222,6 +225,12 @@ class Ctx:
             self.states += r.distinct
             self.transitions += r.generated
         log("TLC %s/%s: %d generated, %d distinct, rc=%d, %.1fs" % (module, cfgname, r.generated, r.distinct, rc, r.wall))
+        if cov_audit:
+            acts = re.findall(r"^<(\w+) line (\d+), col \d+ to line \d+, col \d+ of module (\w+)(?: \((\d+) \d+ \d+ \d+\))?>: (\d+):(\d+)$", out, re.M)
+            never = ["%s@%s:%s" % (a, m, l2 or l1) for a, l1, m, l2, d, t in acts if t == "0" and a != "Init"]
+            with open(os.path.join(VERIF, "out", "coverage-audit.txt"), "a") as f:
+                f.write("%s %s %s consts=%s ok=%s generated=%d distinct=%d actions=%d never-taken=%s\n" % (
+                    self.id, module, cfgname, json.dumps(consts or {}, sort_keys=True), r.ok, r.generated, r.distinct, len(acts), ",".join(never) or "-"))
         if must_pass and not r.ok:
             raise Infra("TLC reported a spec-level error in %s (%s):\n%s" % (module, cfgname, _tail_err(out)))
         if not keep:
